@@ -610,7 +610,7 @@ package flamego
 //@ func (*router).addRoute
 //@   props C08 C09 C10
 //@   requires routerWF(r) && treeWF() && handler != nil
-//@   modifies maps(type(map[string]route.Leaf)), route.baseTree.leaves, route.baseTree.subtrees, elems(type([]route.Leaf)), elems(type([]route.Tree)),
+//@   modifies maps(type(map[string]route.Leaf)), route.baseTree.leaves, route.baseTree.subtrees, route.baseTree.snapLeaves, route.baseTree.snapTrees, elems(type([]route.Leaf)), elems(type([]route.Tree)),
 //@       route.Segment.str, route.Segment.strOnce.fired, route.Route.str, route.Route.strOnce.fired, elems(type([]string))
 //@   panics true
 //@   ensures routerWF(r) && treeWF()
